@@ -625,6 +625,44 @@ func ruleNormalise(r *Run, p string, fn *ssa.Function, mustReject bool) {
 		}
 	})
 	r.Check(okElem, p+".DEF", "def:"+name+":element", site, "each component is x·scale", "normalised component is not x·(1/norm)")
+	// every success return has passed the scaling loop: no early "already normalised" exit leaves the vector as it was
+	var scaleLoop *Loop
+	loops := loopsOf(fn)
+	allInstrs(fn, func(in ssa.Instruction) {
+		st, ok := in.(*ssa.Store)
+		if !ok {
+			return
+		}
+		if _, ok := st.Addr.(*ssa.IndexAddr); ok && ex.S(st.Val) == eMul("x", ds) {
+			scaleLoop = innermostLoop(loops, st.Block())
+		}
+	})
+	if scaleLoop != nil {
+		zeroRet := func(ret *ssa.Return) bool {
+			// the zero-vector exit of the error-less variants (returns the zero copy / nothing) is the guarded branch
+			if errIndex(fn) >= 0 {
+				return false
+			}
+			for b := ret.Block(); b != nil; b = b.Idom() {
+				d := b.Idom()
+				if d == nil {
+					break
+				}
+				if iff, ok := d.Instrs[len(d.Instrs)-1].(*ssa.If); ok {
+					if bo, ok := iff.Cond.(*ssa.BinOp); ok && bo.Op == token.EQL && isZeroConst(bo.Y) && bo.X == div.Y && (d.Succs[0] == b || d.Succs[0].Dominates(b)) {
+						return true
+					}
+				}
+			}
+			return false
+		}
+		esc := successEscapes(fn, func(in ssa.Instruction) bool { return in.Block() == scaleLoop.Header }, func(ret *ssa.Return) bool { return !zeroRet(ret) })
+		if esc != nil {
+			r.Bad(p+".DEF", "def:"+name+":always-scales", w.InstrPos(esc)+" "+name, "a success return is reachable without running the scaling loop: some non-zero vectors are left un-normalised")
+		} else {
+			r.Ok(p+".DEF", "def:"+name+":always-scales", site, "every success return of a non-zero vector has passed the scaling loop")
+		}
+	}
 	// the zero guard dominates the division
 	guard := false
 	rejects := false
